@@ -30,16 +30,19 @@ const (
 	aSetEmpty // a successful item that stores the empty value
 	aFailOnce // an item whose handler fails the first time it runs and succeeds when run again (an item middleware may retry)
 	aNested   // an item whose handler sends a request of its own through the executor, refused as a whole
+	aDetSet   // a set whose handler is run by an item stage under a context NOT derived from the request's
+	aDetRead  // a read run the same way
 	nActions
 )
 
-var actionNames = []string{"set", "read", "fail", "noop", "set-empty", "fail-once", "nested-refused-request"}
+var actionNames = []string{"set", "read", "fail", "noop", "set-empty", "fail-once", "nested-refused-request", "detached-set", "detached-read"}
 
 type monitor struct {
-	inside  atomic.Int64
-	overlap atomic.Int64
-	derived atomic.Int64 // stores made through a derived context that has already ended
-	aliases atomic.Int64 // stores made by the alias item stage before the rest of the item chain ran
+	inside   atomic.Int64
+	overlap  atomic.Int64
+	derived  atomic.Int64 // stores made through a derived context that has already ended
+	aliases  atomic.Int64 // stores made by the alias item stage before the rest of the item chain ran
+	detached atomic.Int64 // items run under a context not derived from their request's
 }
 
 // executor: Activate = set (the id is the value to store), Destroy = read (the response id is what
@@ -52,6 +55,14 @@ func executor(m *monitor) *kmipserver.BatchExecutor {
 		if p, ok := bi.RequestPayload.(*payloads.ActivateRequestPayload); ok && p != nil && strings.HasPrefix(p.UniqueIdentifier, "alias:") {
 			kmipserver.SetIdPlaceholder(ctx, strings.TrimPrefix(p.UniqueIdentifier, "alias:"))
 			m.aliases.Add(1)
+		}
+		if id := anyID(bi.RequestPayload); strings.HasPrefix(id, "detached") {
+			// a stage that runs the rest of the chain under a context of its own making, not derived from the request's:
+			// whatever the handlers do there is outside every request
+			dctx, cancel := context.WithTimeout(context.Background(), time.Minute)
+			defer cancel()
+			m.detached.Add(1)
+			return next(dctx, bi)
 		}
 		resp, err := next(ctx, bi)
 		if p, ok := bi.RequestPayload.(*payloads.ActivateRequestPayload); ok && p != nil && strings.HasPrefix(p.UniqueIdentifier, "post:") && err == nil {
@@ -79,6 +90,11 @@ func executor(m *monitor) *kmipserver.BatchExecutor {
 	ex.Route(kmip.OperationActivate, kmipserver.HandleFunc(func(ctx context.Context, req *payloads.ActivateRequestPayload) (*payloads.ActivateResponsePayload, error) {
 		enter()
 		defer leave()
+		if strings.HasPrefix(req.UniqueIdentifier, "detached:") {
+			// run outside the request (see the detaching stage): storing here must not reach any request
+			kmipserver.SetIdPlaceholder(ctx, strings.TrimPrefix(req.UniqueIdentifier, "detached:"))
+			return &payloads.ActivateResponsePayload{UniqueIdentifier: req.UniqueIdentifier}, nil
+		}
 		if strings.HasPrefix(req.UniqueIdentifier, "alias:") || strings.HasPrefix(req.UniqueIdentifier, "post:") {
 			// resolved (and stored) by the alias stage in front of the handlers; nothing to store here
 			return &payloads.ActivateResponsePayload{UniqueIdentifier: req.UniqueIdentifier}, nil
@@ -146,6 +162,20 @@ func executor(m *monitor) *kmipserver.BatchExecutor {
 	return ex
 }
 
+func anyID(p kmip.OperationPayload) string {
+	switch x := p.(type) {
+	case *payloads.ActivateRequestPayload:
+		if x != nil {
+			return x.UniqueIdentifier
+		}
+	case *payloads.DestroyRequestPayload:
+		if x != nil {
+			return x.UniqueIdentifier
+		}
+	}
+	return ""
+}
+
 func program(r *core.Rand) []int {
 	n := 1 + r.Intn(8)
 	p := make([]int, n)
@@ -158,7 +188,7 @@ func program(r *core.Rand) []int {
 		case 6:
 			p[i] = aFail
 		default:
-			p[i] = []int{aNoop, aSetEmpty, aFailOnce, aNested}[r.Intn(4)]
+			p[i] = []int{aNoop, aSetEmpty, aFailOnce, aNested, aDetSet, aDetRead}[r.Intn(6)]
 		}
 	}
 	return p
@@ -197,6 +227,10 @@ func build(reqID string, prog []int) *kmip.RequestMessage {
 			bi.Operation, bi.RequestPayload = kmip.OperationArchive, &payloads.ArchiveRequestPayload{UniqueIdentifier: fmt.Sprintf("once:%s:%d", reqID, i)}
 		case aNested:
 			bi.Operation, bi.RequestPayload = kmip.OperationObtainLease, &payloads.ObtainLeaseRequestPayload{UniqueIdentifier: "c"}
+		case aDetSet:
+			bi.Operation, bi.RequestPayload = kmip.OperationActivate, &payloads.ActivateRequestPayload{UniqueIdentifier: "detached:" + setValue(reqID, i)}
+		case aDetRead:
+			bi.Operation, bi.RequestPayload = kmip.OperationDestroy, &payloads.DestroyRequestPayload{UniqueIdentifier: "detached-read"}
 		default:
 			bi.Operation, bi.RequestPayload = kmip.OperationRecover, &payloads.RecoverRequestPayload{UniqueIdentifier: reqID + ":explicit"}
 		}
@@ -244,6 +278,19 @@ func judge(c *core.Ctx, reqID string, prog []int, resp *kmip.ResponseMessage, vi
 			model[i] = aFail
 		case a == aNested:
 			model[i] = aNoop // no effect on the placeholder
+		case a == aDetSet:
+			model[i] = aFail // outside the request: nothing stored in it (the item may fail, which the model treats like any failed item)
+		case a == aDetRead:
+			// what is read outside a request is never something a request stored
+			if resp != nil && i < len(resp.BatchItem) {
+				if pl, ok := resp.BatchItem[i].ResponsePayload.(*payloads.DestroyResponsePayload); ok && pl != nil {
+					if got := strings.TrimPrefix(pl.UniqueIdentifier, "read:"); got != "" {
+						c.Violation("C15:value-visible-outside-its-request", fmt.Sprintf("item %d of request %s, run under a context that does not belong to any request, reads %q (%s)", i, reqID, got, via), nil)
+						return
+					}
+				}
+			}
+			model[i] = aFail
 		}
 	}
 	prog = model
@@ -428,6 +475,7 @@ func direct(c *core.Ctx, r *core.Rand, i int) {
 	c.Count("handler_overlaps", m.overlap.Load())
 	c.Count("stores_through_ended_derived_context", m.derived.Load())
 	c.Count("stores_by_the_alias_item_stage", m.aliases.Load())
+	c.Count("items_run_outside_their_request", m.detached.Load())
 	c.Count("concurrent_requesters", int64(N))
 }
 
@@ -478,6 +526,7 @@ func wire(c *core.Ctx, r *core.Rand, i int) {
 	c.Count("handler_overlaps", m.overlap.Load())
 	c.Count("stores_through_ended_derived_context", m.derived.Load())
 	c.Count("stores_by_the_alias_item_stage", m.aliases.Load())
+	c.Count("items_run_outside_their_request", m.detached.Load())
 }
 
 func Spec() *core.Spec {
@@ -489,7 +538,7 @@ func Spec() *core.Spec {
 		Rule: "seeded programs of 1-8 batch items over {set (value = request id + item index), read, fail, noop}; 2-64 goroutines issuing requests through BatchExecutor.HandleRequest at once (handlers yield so that items of different requests interleave; in half of the rounds a retry middleware runs the chain twice for a quarter of the requests) and 1-16 real server connections each sending a sequence of 6 requests; " +
 			"every read is checked against a per-request sequential register model starting empty; any value carrying another request's id is a leak, identified exactly; race reports whose stacks are the placeholder accessors are violations. a fifth action storing the empty value; reads through IdPlaceholder and through GetIdOrPlaceholder; items resolving an explicit identifier in between; blank-padded values; items whose handler fails once under an item-retry middleware; handlers sending a refused request of their own; Batch Order Option absent/true/false; a batch-splitting message middleware (chunks through separate continuation calls); distinct = distinct programs",
 		Assumptions: []string{"after a failed item both the previous value and the empty value are accepted (the statement is silent on clearing)"},
-		Required:    []string{"requests.direct", "requests.wire", "reads", "handler_overlaps", "connections", "retried_requests", "split_requests", "empty_value_stored_over_a_value", "item_retry_requests", "stores_through_ended_derived_context", "stores_by_the_alias_item_stage"},
+		Required:    []string{"requests.direct", "requests.wire", "reads", "handler_overlaps", "connections", "retried_requests", "split_requests", "empty_value_stored_over_a_value", "item_retry_requests", "stores_through_ended_derived_context", "stores_by_the_alias_item_stage", "items_run_outside_their_request"},
 		RaceVerdict: func(r core.RaceReport) (string, bool) {
 			for _, st := range r.Frames {
 				for _, f := range st {
